@@ -200,9 +200,10 @@ func panicClass(x any) string {
 // runCase executes one history with a watchdog, so that a hang in the code
 // under test is an observation ("hang") and not a stuck check.
 func runCase(s *Stream, ops []string, st *Stats, out *bufio.Writer, timeout time.Duration) {
-	if st.Hangs >= 3 {
-		// The implementation under test hangs again and again (each hang costs a full watchdog period and leaves
-		// a spinning goroutine behind): do not execute further histories, say so on every line.
+	if st.Hangs >= 1 {
+		// The implementation under test hung (a hang costs a full watchdog period and leaves a spinning or
+		// blocked goroutine behind, and one hang already decides the run): do not execute further histories,
+		// say so on every line.
 		for _, line := range ops {
 			fmt.Fprintf(out, "%s\tskipped-after-hangs\n", line)
 			st.Ops++
@@ -325,7 +326,7 @@ func main() {
 		sc := bufio.NewScanner(os.Stdin)
 		sc.Buffer(make([]byte, 1<<20), 1<<26)
 		// generous: on a loaded machine a slow operation must not be mistaken for a hang (a false alarm on the
-		// unchanged tree); a real hang costs at most three such periods per run (see runCase)
+		// unchanged tree); a real hang costs one such period per run (see runCase)
 		timeout := 120 * time.Second
 		if v := os.Getenv("VERIF_CASE_TIMEOUT_MS"); v != "" {
 			if ms, err := strconv.Atoi(v); err == nil {
